@@ -221,3 +221,108 @@ func ZZC03Tokens() {
 	zzCheckParse(src, "tokens")
 	zzWitness("end")
 }
+
+// ZZC03Locate: one culprit (an unknown variable, or a call that has no value)
+// at each position of an otherwise valid list — array elements, map values,
+// call arguments, operands, statements of a block — in a one-line and in a
+// multi-line layout with comments and blank lines. The first reported error
+// points exactly at the culprit's first character.
+func ZZC03Locate() {
+	K := zzParam("K", 3)
+	n := 2 + zzChoice("n", K-1)
+	k := zzChoice("pos", n)
+	culprits := []string{"nosuch", "(cls)"}
+	ci := zzChoice("culprit", len(culprits))
+	cul := culprits[ci]
+	ctx := zzChoice("ctx", 6)
+	multi := zzChoice("multi", 2) == 1
+	items := make([]string, n)
+	for i := range items {
+		items[i] = string(rune('1' + i))
+	}
+	sep, open, close := " ", "", ""
+	if multi {
+		sep = " // c\n\n    // own line\n    "
+	}
+	var pre, post string
+	switch ctx {
+	case 0: // array literal
+		pre, post = "x := [", "]\nprint x\n"
+		if multi {
+			open, close = "\n    ", "\n"
+		}
+	case 1: // map literal
+		for i := range items {
+			items[i] = string(rune('a'+i)) + ":" + items[i]
+		}
+		cul = "q:" + cul
+		pre, post = "x := {", "}\nprint x\n"
+		if multi {
+			open, close = "\n    ", "\n"
+		}
+	case 2: // call arguments (one line only: an argument list ends at the line end)
+		if multi {
+			zzAssume(false)
+		}
+		pre, post = "print ", "\n"
+	case 3: // operands
+		if multi || ci == 1 {
+			zzAssume(false)
+		}
+		sep = " + "
+		pre, post = "x := ", "\nprint x\n"
+	case 4: // statements of a block
+		if ci == 1 {
+			zzAssume(false) // `(cls)` is not a statement form
+		}
+		for i := range items {
+			items[i] = "print " + items[i]
+		}
+		cul = "print " + cul
+		sep = "\n    "
+		if multi {
+			sep = " // c\n\n    // own line\n    "
+		}
+		pre, post = "if true\n    ", "\nend\n"
+	case 5: // nested literal inside a call inside a block
+		pre, post = "while false\n    print (len [", "])\nend\n"
+		if multi {
+			open, close = "\n        ", "\n    "
+			sep = " // c\n        "
+		}
+	}
+	items[k] = cul
+	src := pre + open
+	want := -1
+	for i, it := range items {
+		if i > 0 {
+			src += sep
+		}
+		if i == k {
+			want = len([]rune(src))
+			if ctx == 1 {
+				want += 2 // the value after `q:`
+			}
+			if ctx == 4 {
+				want += len("print ")
+			}
+		}
+		src += it
+	}
+	src += close + post
+	_, err := Parse(src, zzBuiltins())
+	errs, ok := err.(Errors)
+	zzAssert(err != nil && ok && len(errs) > 0, "C03 locate: a program with a culprit is rejected with located errors")
+	if !ok || len(errs) == 0 {
+		zzLog("accepted:\n" + src)
+		return
+	}
+	first := errs[0]
+	line, col := zzLineCol([]rune(src), want)
+	if first.token.Offset != want {
+		zzLog("C03 locate: first error " + first.Error() + " but the culprit is at line " + string(rune('0'+line)) + " column " + string(rune('0'+col%10)) + " in:\n" + src)
+	}
+	zzAssert(first.token.Offset == want && first.token.Line == line && first.token.Col == col, "C03 locate: the first error points at the right character (the culprit), wherever it sits in the list")
+	zzReach("locate-ok")
+	zzWitness("end")
+}
